@@ -139,21 +139,25 @@ func replayNum(args map[string]string) error {
 // ------------------------------------------------------------------ floats (trace validation)
 
 type numCase struct {
-	ID    int     `json:"id"`
-	Prop  string  `json:"prop"`
-	Kind  string  `json:"kind"` // "fmt" float -> text, "parse" text -> float
-	Bits  int     `json:"bits"`
-	F     string  `json:"f"`     // fmt: the float's bit pattern in hex (for replay)
-	Outs  [][]int `json:"outs"`  // fmt: texts produced by every formatting path
-	Proj  []any   `json:"proj"`  // fmt: [neg, digits, n] shortest digits
-	RT    bool    `json:"rt"`    // fmt: text parses back to the identical bits (all paths)
-	Short bool    `json:"short"` // fmt: no shorter decimal lies in the rounding interval (math/big)
-	Lit   []int   `json:"lit"`   // parse: the literal
-	Round bool    `json:"round"` // parse: result is the correctly rounded value (math/big), on all routes
-	Ovf   bool    `json:"ovf"`   // parse: |literal| rounds beyond the largest finite value (math/big)
-	Err   bool    `json:"err"`   // parse: the library returned an error
-	TokE  string  `json:"toke"`  // parse: error class of Token.Float / Float32
-	Panic string  `json:"panic"`
+	ID     int     `json:"id"`
+	Prop   string  `json:"prop"`
+	Kind   string  `json:"kind"` // "fmt" float -> text, "parse" text -> float
+	Bits   int     `json:"bits"`
+	F      string  `json:"f"`     // fmt: the float's bit pattern in hex (for replay)
+	Outs   [][]int `json:"outs"`  // fmt: texts produced by every formatting path
+	Proj   []any   `json:"proj"`  // fmt: [neg, digits, n] shortest digits
+	RT     bool    `json:"rt"`    // fmt: text parses back to the identical bits (all paths)
+	Short  bool    `json:"short"` // fmt: no shorter decimal lies in the rounding interval (math/big)
+	Lit    []int   `json:"lit"`   // parse: the literal
+	Round  bool    `json:"round"` // parse: result is the correctly rounded value (math/big), on all routes
+	Ovf    bool    `json:"ovf"`   // parse: |literal| rounds beyond the largest finite value (math/big)
+	Err    bool    `json:"err"`   // parse: the library returned an error
+	TokE   string  `json:"toke"`  // parse: error class of Token.Float / Float32
+	Tok    string  `json:"tok"`   // typed: constructor ("float", "float32", "int", "uint")
+	Acc    string  `json:"acc"`   // typed: accessor ("int", "uint", "float32", "float64")
+	GotMag []int   `json:"gotmag"`
+	GotNeg bool    `json:"gotneg"`
+	Panic  string  `json:"panic"`
 }
 
 func fmtPaths(f float64, bits int) [][]byte {
@@ -282,6 +286,19 @@ func numExec(c *numCase) {
 		if r := recover(); r != nil {
 			c.Panic = fmt.Sprint(r)
 		}
+		// the trace reader on the TLC side has no JSON null
+		if c.Outs == nil {
+			c.Outs = [][]int{}
+		}
+		if c.Proj == nil {
+			c.Proj = []any{}
+		}
+		if c.Lit == nil {
+			c.Lit = []int{}
+		}
+		if c.GotMag == nil {
+			c.GotMag = []int{}
+		}
 	}()
 	if c.Kind == "fmt" {
 		u, _ := strconv.ParseUint(c.F, 16, 64)
@@ -317,6 +334,10 @@ func numExec(c *numCase) {
 		p := floatDigitsOf(s, math.Signbit(f))
 		c.Proj = p
 		c.Short = isShortest(f, c.Bits, len(p[1].([]int)))
+		return
+	}
+	if c.Kind == "typed" {
+		numExecTyped(c)
 		return
 	}
 	lit := string(bytesOf(c.Lit))
@@ -510,6 +531,76 @@ func driveNum(args map[string]string) error {
 			emitL(strings.Replace(lit, "e+", "e", 1), bits)
 		}
 	}
+	// tokens constructed from Go numbers, read back through every accessor
+	emitT := func(tokk string, bits uint64, acc string) {
+		if (tokk == "float" && bits&(0x7ff<<52) == 0x7ff<<52) || (tokk == "float32" && bits&0x7f800000 == 0x7f800000) {
+			return // finite values only
+		}
+		id++
+		c := numCase{ID: id, Prop: "C10", Kind: "typed", Tok: tokk, Acc: acc, F: strconv.FormatUint(bits, 16), Lit: []int{}, Outs: [][]int{}, Proj: []any{}}
+		numExec(&c)
+		out.put(c)
+	}
+	accs := []string{"int", "uint", "float64", "float32"}
+	specialF := []float64{0, math.Copysign(0, -1), 0.5, -0.5, 1, -1, 1.5, 9007199254740992, 9223372036854775807, 9223372036854775808, -9223372036854775808, -9223372036854777856,
+		18446744073709551615, 18446744073709551616, 1e30, -1e30, math.MaxFloat32, 3.4028235e38, 3.4028235677973366e38, math.Nextafter(3.4028235677973366e38, 0), 3.4028236e38, math.MaxFloat64, 1e-320}
+	for _, f := range specialF {
+		for _, a := range accs {
+			emitT("float", math.Float64bits(f), a)
+			emitT("float32", uint64(math.Float32bits(float32(f))), a)
+		}
+	}
+	for _, v := range []int64{0, 1, -1, math.MaxInt64, math.MinInt64, 1 << 53, -(1 << 53) - 1} {
+		for _, a := range accs {
+			emitT("int", uint64(v), a)
+		}
+	}
+	for _, v := range []uint64{0, 1, math.MaxInt64, math.MaxInt64 + 1, math.MaxUint64, 1<<53 + 1} {
+		for _, a := range accs {
+			emitT("uint", v, a)
+		}
+	}
+	for i := 0; i < n/10; i++ {
+		a := accs[r.IntN(4)]
+		switch r.IntN(4) {
+		case 0:
+			emitT("float", r.Uint64()&^(0x7ff<<52)|uint64(r.IntN(2046)+1)<<52, a)
+		case 1: // floats around the float32 overflow threshold and the int64/uint64 bounds
+			base := []float64{math.MaxFloat32, 9223372036854775808, 18446744073709551616, 1 << 53}[r.IntN(4)]
+			x := base
+			for k := r.IntN(40) - 20; k != 0; {
+				if k > 0 {
+					x = math.Nextafter(x, math.Inf(1))
+					k--
+				} else {
+					x = math.Nextafter(x, 0)
+					k++
+				}
+			}
+			if r.IntN(2) == 0 {
+				x = -x
+			}
+			emitT("float", math.Float64bits(x), a)
+		case 2:
+			emitT("int", r.Uint64()>>uint(r.IntN(64)), a)
+		default:
+			emitT("uint", r.Uint64()>>uint(r.IntN(64)), a)
+		}
+	}
+	// plain integer literals at float32 rounding midpoints above 2^53 (no exponent, no fraction)
+	for i := 0; i < n/20+20; i++ {
+		f := math.Float32frombits(uint32(0x5a800000) + uint32(r.IntN(0x04800000))) // 2^54 .. 2^63
+		nb := math.Nextafter32(f, float32(math.Inf(1)))
+		lo, _ := new(big.Float).SetFloat64(float64(f)).Int(nil)
+		hi, _ := new(big.Float).SetFloat64(float64(nb)).Int(nil)
+		mid := new(big.Int).Rsh(new(big.Int).Add(lo, hi), 1)
+		for _, d := range []int64{-1, 0, 1, 2} {
+			m := new(big.Int).Add(mid, big.NewInt(d))
+			if m.IsUint64() {
+				emitL(m.String(), 32)
+			}
+		}
+	}
 	// overflow threshold of both widths
 	for _, s := range []string{"1.7976931348623157e308", "1.7976931348623158e308", "1.797693134862315807e308", "1.797693134862315808e308", "1.8e308", "1e309", "-1e400",
 		"3.4028235e38", "3.4028235677973366e38", "3.40282356779733661e38", "3.4028236e38", "1e39", "4e-324", "2.4703282292062327e-324", "2.4703282292062328e-324", "1e-400", "0e999"} {
@@ -526,3 +617,70 @@ func init() {
 }
 
 var _ = rand.Int
+
+// exactDecimal is the exact decimal expansion of a finite float64.
+func exactDecimal(f float64) string {
+	if f == 0 {
+		if math.Signbit(f) {
+			return "-0"
+		}
+		return "0"
+	}
+	r := new(big.Rat).SetFloat64(f)
+	if r.IsInt() {
+		return r.Num().String()
+	}
+	return r.FloatString(1100)
+}
+
+func trimDecimal(s string) string {
+	if strings.Contains(s, ".") {
+		s = strings.TrimRight(s, "0")
+		s = strings.TrimSuffix(s, ".")
+	}
+	return s
+}
+
+func numExecTyped(c *numCase) {
+	u, _ := strconv.ParseUint(c.F, 16, 64)
+	var tok jsontext.Token
+	var exact string
+	switch c.Tok {
+	case "float":
+		f := math.Float64frombits(u)
+		tok, exact = jsontext.Float(f), trimDecimal(exactDecimal(f))
+	case "float32":
+		f := math.Float32frombits(uint32(u))
+		tok, exact = jsontext.Float32(f), trimDecimal(exactDecimal(float64(f)))
+	case "int":
+		tok, exact = jsontext.Int(int64(u)), strconv.FormatInt(int64(u), 10)
+	case "uint":
+		tok, exact = jsontext.Uint(u), strconv.FormatUint(u, 10)
+	}
+	c.Lit = ints([]byte(exact))
+	c.Round, c.GotMag = true, []int{}
+	switch c.Acc {
+	case "int":
+		v, err := tok.Int()
+		c.TokE = numErrClass(err)
+		c.GotNeg, c.GotMag = magDigits(strconv.FormatInt(v, 10))
+	case "uint":
+		v, err := tok.Uint()
+		c.TokE = numErrClass(err)
+		_, c.GotMag = magDigits(strconv.FormatUint(v, 10))
+	case "float64":
+		v, err := tok.Float()
+		c.TokE = numErrClass(err)
+		c.Round, c.Ovf = correctlyRounded(exact, 64, v)
+	case "float32":
+		v, err := tok.Float32()
+		c.TokE = numErrClass(err)
+		if c.Tok == "float" && err != nil {
+			// documented: the float64 value is returned along with the range error
+			c.Round, c.Ovf = true, true
+			_, c.Ovf = correctlyRounded(exact, 32, float64(float32(math.Float64frombits(u))))
+		} else {
+			c.Round, c.Ovf = correctlyRounded(exact, 32, float64(v))
+		}
+	}
+}
